@@ -56,6 +56,7 @@ prop("C02", "c02",
      "Plans also come from the wide-stage profile (258..700 registrations most of which touch nothing: one stage of more than 256 groups, then late-comers whose only conflict or dependency is with a far group), range over up to 320 distinct resources (8 types x 40 dynamic ids) with access lists of up to 70 entries, and contain barriers placed after exactly 255..257 / 511..513 registrations. "
      "Every 13th plan is a wide-stage plan (258..700 mostly resource-less systems, 3..12% of them depending on a recent name): dependencies on systems that sit in groups 256+ of one stage. One shard (quick) / four shards (thorough) also build a plan of 2^16+ stages (every filler followed by a barrier) whose last five systems depend on one another: dependants strictly later. "
      "Happens-before probe (thorough tier, decided by the race detectors): the same kind of plans run with systems that touch no atomic of the harness at all - each one reads, non-atomically, the plain cells of everything that must have finished before it (its dependencies, systems in front of an effective barrier, every ordinary system for a thread-local one, its own run in the previous dispatch; the caller reads all cells after dispatch / wait returned) and writes its own cell - under ThreadSanitizer and under Miri: an ordering that holds in time but lacks a happens-before edge (a latch built from relaxed atomics, say) is a data race there, while the event log - whose own atomic operations synchronise the threads it observes - cannot see it. "
+     "Dynamic systems come in four flavours (accessor type without a default / with an empty default / with a default that claims every resource - `accessor()` of the instance is what counts - and one whose `accessor()` callback fills another builder while it is being registered); the static menu (17 library types) includes a derived bundle with a library-like name nested in another one and a generic derived bundle used with two type arguments. "
      "distinct non-trivial = (plan hash, driver) with >=1 dependency edge and either a completed hold or >=1 dependency pair checked in the log.",
      thorough=[shards(name="main"), san("tsan", name="tsan-hb", sub="hb", args=["--deps"], scale=3.0), miri(rayon=True, name="miri-hb", sub="hb", args=["--tiny", "--deps"], scale=0.004)])
 
@@ -83,6 +84,7 @@ prop("C12", "c12",
      "oracle: thread id == caller's, start after every ordinary system's end, registration order, one at a time; layout oracle: thread-local list == registration order. "
      "Two hand-made scenarios every 40th case each: (a) a whole dispatcher with thread-local systems of its own registered as a thread-local system of another dispatcher (nested up to two deep; dispatch / dispatch_seq+dispatch_thread_local / RunNow::run_now): the flattened registration order on the calling thread, once per dispatch; (b) async: a thread-local system panics inside wait() (caught), then wait() again with or without a new dispatch(): every thread-local system runs, from the first one. "
      "Happens-before probe (thorough tier, decided by the race detectors): the same kind of plans run with systems that touch no atomic of the harness at all - each one reads, non-atomically, the plain cells of everything that must have finished before it (its dependencies, systems in front of an effective barrier, every ordinary system for a thread-local one, its own run in the previous dispatch; the caller reads all cells after dispatch / wait returned) and writes its own cell - under ThreadSanitizer and under Miri: an ordering that holds in time but lacks a happens-before edge (a latch built from relaxed atomics, say) is a data race there, while the event log - whose own atomic operations synchronise the threads it observes - cannot see it. "
+     "(c) async: while a dispatch is in flight (one system parked) the caller calls setup / a second dispatch / world_mut / wait_without_tl: none of that runs a thread-local system, the wait() that follows runs each once. The event-log oracle also requires a thread-local pass to end before the next dispatch of the same dispatcher (the next inner dispatch of a batch) starts its systems. "
      "distinct non-trivial = (plan hash, driver) with >=1 thread-local window observed beside >=1 ordinary system.",
      thorough=[shards(name="main"), san("tsan", name="tsan-hb", sub="hb", args=["--tl"], scale=3.0), miri(rayon=True, name="miri-hb", sub="hb", args=["--tiny", "--tl"], scale=0.004)])
 
@@ -91,6 +93,7 @@ prop("C04", "c04",
      "after every call the per-system run counters are compared with a reference count model (batch members multiply by the controller's k along the nesting); a third of the calls on small plans are monitored and the event log is checked (no re-entry, epochs do not overtake, nothing outside the call); the layout must hold every registered system exactly once; SendDispatcher after try_into_sendable likewise. "
      "Call sequences also contain RunNow::run_now and, now and then, a call in which a system panics (caught; counts are re-baselined and every later call is exact again); every 5th case drives the async dispatcher (dispatch requests spaced arbitrarily, wait / wait_without_tl / world / running) under the same count model. "
      "Long histories: on every shard two dispatchers see 2^16+2..40 calls in a row with the count model checked after every single call, and four MultiDispatcher batches whose plan() asks for 255..257 / 65535..65537 rounds are dispatched (sub-systems run exactly that many times). "
+     "One call in twelve is made from a destructor that runs while the calling thread unwinds from an unrelated panic; a third of the async histories end with dispatch() followed at once by dropping the dispatcher (the request is still carried out). "
      "distinct non-trivial = (layout hash, call-sequence hash) with >=2 stages or a batch, and a sequence of >=2 calls.")
 
 prop("C19", "c19",
@@ -103,11 +106,13 @@ prop("C19", "c19",
 prop("C20", "c20",
      "cases = generated builders (names with spaces, dashes, slashes, unicode; 10-60% unnamed systems; batches; empty builders); `{:?}`, `{:#?}` and one spelling with width / precision / fill / sign flags (e.g. `{:.7?}`, `{:24?}`, `{:*>12?}`, `{:+#300?}`) of every builder level (inner builders just before add_batch, the top builder before build) under catch_unwind, parsed with a seq!/par!/seq! grammar and compared positionally with the executed layout (shape hook + identification run): stage/group/size structure, total count, the sanitised name at every position of a named system; an unnamed system may be shown by any token that is not a name handed to this builder for something else. "
      "A fifth of the builders (plus the generator's own share) also see registration attempts that fail and are caught, after which registration continues: unknown dependency, reused name, and systems - named or not - whose own accessor() / reads() / writes() / running_time() panics while the builder inspects them. "
+     "Every 64th small plan is dispatched twice with one system that stays inside run for 25 ms, then the executed layout is read again and compared with the text once more (the plan that was printed is the plan that is run - also later); every 500th case formats a builder from the destructor of a thread-local value while its thread exits. "
      "distinct non-trivial = (plan, layout) with a stage of >=2 groups and >=1 unnamed or sanitised name.")
 
 prop("C18", "c18",
      "cases = registration sequences of up to ~600 calls (funnels that fill groups from both sides, running-time hints, hundreds of empty names, names needing sanitising, batches, thread-local, barriers); half of them carry exactly one ill-formed call at a random position: a reused non-empty name, or a dependency on the empty name / a name registered later / a name that only exists inside a batch / its own name / a sanitised spelling / a fresh name. "
      "Every single builder call runs under catch_unwind: panic <=> ill-formed, at that very call, message contains the quoted name; a well-formed sequence must also build(). "
+     "After the ill-formed call was rejected the caller repairs it (the original, well-formed item) and carries on with the same builder: the repaired call and all later ones must be accepted and the result must build. Every 12th builder (up to 60 calls) is filled from a destructor during unwinding; a seventh of the dynamic systems register into another builder from inside their `accessor()` callback. "
      "distinct non-trivial = sequence hash with >=20 calls or an ill-formed call that was reached.")
 
 prop("C13", "c13",
@@ -115,6 +120,7 @@ prop("C13", "c13",
      "setup and dispose are called through the inherent methods or through the dispatcher's RunNow impl (RunNow::setup, RunNow::dispose on the boxed dispatcher). "
      "Oracles: per-system setup counter == number of setup calls, dispose counter == 1 (any depth, thread-local included); world before/after against a reference (pre-existing values untouched, default-providing accessors create the default, Option/Expect create nothing). "
      "The thorough tier repeats a slice under AddressSanitizer + LeakSanitizer (dispose consumes the boxed systems, batches own an inner dispatcher behind an `unsafe impl Send`: a system that is neither disposed nor dropped is a leak, one handed out twice a double free) and a few dozen cases under Miri. "
+     "A tenth of the setup calls and a sixth of the dispose calls are made from a destructor during unwinding; a third of the async cases call setup a second time *while a dispatch is in flight* (one system parked, a helper lets it go once the caller is about to block). "
      "distinct non-trivial = (plan hash, initial-world density) with a batch member or thread-local system and >=1 pre-existing resource.",
      thorough=[shards(name="main"), san("asan", name="asan", scale=0.05), miri(rayon=True, name="miri", scale=0.0001)])
 
@@ -132,6 +138,7 @@ prop("C11", "c11",
      "cases = (stage width w in 2..16, pool size w or 16, context in {user pool, default pool, inside a batch (HCtl or MultiDispatcher), async dispatcher}, with/without a preceding stage) x 30 (quick) / 100 (thorough) dispatches: the heads of all w groups rendezvous inside run (bounded 10 s); a failed rendezvous is a violation only if the control - w plain closures spawned with pool.scope on the same (or an equivalently configured default) pool - completes, otherwise inconclusive. "
      "Variations: default pool with a narrow batch inside the wide stage, one chain group of two systems among the w groups, a warm-up history of 200..3000 trivial dispatches, two back-to-back async requests, dispatch called from a worker of a different 1..2-thread pool. A failed rendezvous is re-run on a fresh dispatcher (whole scenario) before the control decides. "
      "Configurations: every other shard runs with RAYON_NUM_THREADS=3 (the pool a dispatcher makes for itself is then that small; default-pool contexts are capped at that width); a third of the user-pool / batch / async cases attach the pool *after* all registrations (batches included), the batch cases then with a stage wider than any default pool. "
+     "Two more contexts: the dispatcher (sendable form, own pool, own world) is driven from inside an ordinary system of another dispatcher that runs on a 1..2-thread pool; and, in a fifth of the user-pool / batch / async cases, a busy neighbour - another dispatcher on another pool and thread whose systems stay inside run for the whole scenario. "
      "distinct non-trivial = (w, pool, context, prefix) with w >= 2 and every rendezvous completed.",
      quick=[shards(nshards=4, max_par=4)], thorough=[shards(nshards=8, max_par=4)])
 
@@ -150,6 +157,7 @@ prop("C15", "c15",
      "After every accessor returns: active systems == 0 and completions == dispatches x systems; running()==false only with all completions; dispatch #n returns only when #n-1 is complete; whole-history event log: every system once per epoch, epochs never overtake; thread-local systems only between wait() marks, on the calling thread, once per wait. "
      "Long histories (4 per shard): running() is polled until false once, then 254..256 / 65534..65536 frames of dispatch + wait / wait_without_tl / world, then one more dispatch in which a system is parked inside run while running() is polled 3..30 times (must be true), then wait. "
      "Happens-before probe (thorough tier, decided by the race detectors): the same kind of plans run with systems that touch no atomic of the harness at all - each one reads, non-atomically, the plain cells of everything that must have finished before it (its dependencies, systems in front of an effective barrier, every ordinary system for a thread-local one, its own run in the previous dispatch; the caller reads all cells after dispatch / wait returned) and writes its own cell - under ThreadSanitizer and under Miri: an ordering that holds in time but lacks a happens-before edge (a latch built from relaxed atomics, say) is a data race there, while the event log - whose own atomic operations synchronise the threads it observes - cannot see it. "
+     "Every 6th history (pools of 4+ threads) is driven by a worker of the dispatcher's own pool (built, used and dropped inside pool.install). "
      "distinct non-trivial = (plan, history) with >=1 poll of running() on a parked system and >=2 dispatches.",
      thorough=[shards(name="main"), san("tsan", name="tsan", scale=0.25), san("tsan", name="tsan-hb", sub="hb", args=["--async"], scale=3.0), miri(rayon=True, name="miri-hb", sub="hb", args=["--tiny", "--async"], scale=0.004)])
 
@@ -158,6 +166,7 @@ prop("C16", "c16",
      "Every 8th tree ranges over 128 resources with leaves of up to 12 writes (par nodes mentioning > 64 distinct resources); half of the leaves use an accessor type whose try_new() is Some while accessor() is overridden; setup is called 1..3 times (fresh world / resources removed in between); every 50th case checks that k par leaves rendezvous when dispatch is called from outside, from inside the pool, or from a worker of a different 1-thread pool. "
      "Oracles: Par::with panics (debug assertions are on in this build) <=> the new child conflicts with the children already there; root reads()/writes() == multiset of the leaves'; setup reaches every leaf once; every leaf exactly once per dispatch; within a seq node all leaves of child i end before any leaf of child i+1 enters; conflicting leaves never overlap; every 100th case: k leaves under one par node rendezvous inside run (with a plain-rayon control). "
      "A third of the trees turn some leaves into zero-sized systems (unit structs over library system data; reporting through statics). Every 25th case is one of nine *statically typed* trees built with the par!/seq! macros over concrete leaf types, zero-sized ones at every position (the run-time trees box every child); every 25th case lets a leaf change its run-time access set after it was added (as a script system does in setup): reads()/writes() of the node follow, a later Par::with is judged against what the children declare now. "
+     "The statically typed trees include a user-defined zero-sized system that is itself called `Nil`. "
      "distinct non-trivial = tree-shape hash with depth >=2 and both node kinds (or a completed par rendezvous).",
      thorough=[shards(name="main"), miri(rayon=True, name="miri", args=["--tiny"], scale=0.0004)])
 
@@ -165,6 +174,7 @@ prop("C08", "c08",
      "cases = (a) single-thread histories of 60 operations over 3..18 hot resources (some absent): try_fetch(_mut)_by_id on any dynamic id, fetch / fetch_mut / try_fetch / try_fetch_mut, system_data of 14 library SystemData types (first failing member decides; earlier members unwind), Fetch::clone, MetaTable iter (several items kept alive) and iter_mut, drop of a random live guard, scoped unwinding through freshly taken guards, writes through live exclusive guards; after every step the outcome (guard / None / panic kind) must equal the borrow-state reference model, every live guard must still read its model value and the borrow state of all 32 cells (probed via try_fetch_internal) must equal the model. "
      "(b) every 100th case: 2..16 threads hammer 2..4 resources under catch_unwind; a per-slot shadow counter is changed strictly inside each guard's lifetime (exclusive: CAS 0->-1, shared: add must see >=0), writers write a, spin, b, readers check a==b. "
      "(c) fetches made from a destructor that runs while the thread is unwinding from an unrelated panic (the destructor catches the outcome): same rules. (d) every 100th case, a refusal-history check: a holder keeps taking the shared guard, drops it and at once asks for the exclusive one while 1..3 threads keep asking for the exclusive guard; every attempt is stamped on a logical clock before the call, after the return and after the drop; offline, every refusal must be explained by a conflicting guard *granted* to another thread whose possible lifetime [call, drop end] meets the refused call - a failed attempt must leave no trace - and no two conflicting guards may be surely alive (return .. drop start) at one instant. "
+     "(e) every 100th case: guards taken on one thread and dropped on another (acknowledged), after which the first thread fetches again - that must succeed. "
      "distinct non-trivial = history hash (or stress run) with >=1 refused and >=1 granted borrow of each kind.",
      crash_is_violation=True,
      thorough=[shards(name="main"), san("tsan", name="tsan", args=["--stress-only"], scale=0.001), miri(name="miri", args=["--small"], scale=0.0002)])
@@ -183,6 +193,7 @@ prop("C17", "c17",
      "Iterators are consumed through collect or through skip / step_by / nth / last / take; the wrong cast is also tried on a zero-sized type through get, get_mut, iter and iter_mut. "
      "Oracles: reference registration list (first-registration order) and presence map; get(_mut) is Some <=> registered; every yielded object's self-reported address == the resource's address and its type tag == the concrete type's; iter sequences == [registration order ∩ present under dyn id 0] with model values; shared/exclusive interplay with typed fetches; the bad cast must panic with the library's message. "
      "The thorough tier repeats a quarter of the histories against the crate built with its `nightly` feature (the ptr_metadata implementation of the meta table) on the nightly toolchain. "
+     "The bad-cast cases also use a cast that is right at first (conversions through all four paths) and then starts returning another address: rejected on every path, every time. "
      "distinct non-trivial = history hash with a repeated registration and a registered-but-absent type.",
      crash_is_violation=True,
      thorough=[shards(name="main"), san("asan", name="asan", scale=0.1), san("tsan", name="tsan", args=["--concurrent-only"], scale=0.03), miri(name="miri", args=["--small"], scale=0.00016), shards(name="nightly-meta", build="nightlymeta", optional=True, scale=0.25)])
@@ -190,5 +201,6 @@ prop("C17", "c17",
 prop("C06", "c06",
      "cases = Rust *programs*: SystemData type expressions generated by gen_c06.py, compiled against /repo and run. Families: (i) rotation - every arity 1..26 x 12 rotations of the member kinds (Read, Write, ReadExpect, WriteExpect, Option<Read>, Option<Write>, (), PhantomData, nested tuple, derived struct, Read/Write with a user-written SetupHandler), position p on its own resource A_p; (ii) random per seed - nestings to depth 3, tuples up to arity 26, derived named and tuple structs with an extra lifetime, redundant where-clauses, hand-written generic derives (type parameters, where-clauses, two lifetimes), repeated reads of one resource and (15%) deliberately conflicting members; (iii) thorough only: the full cross family, every (arity, position, kind) triple as its own type. "
      "For each type: reads()/writes() as sets vs an independent model computed by the generator from the syntax tree; for every presence pattern (all present, each used resource absent, 3 random subsets, empty world) the fetch outcome (value / missing-resource panic / borrow-conflict panic) vs the model, the borrow state of all 26 cells probed while the value is alive (exclusive for writes, shared for reads, free otherwise) and after drop/unwind (all free); setup vs the composition of the members' setups (defaults created iff vacant, existing untouched, Option/Expect create nothing). "
+     "Also: a generic derive whose member is a compound of its type parameters (`both: (X, Y)`), derived structs whose names begin like library types (ReadS.., WriteS.., OptionS.., PhantomDataS..), 120 (thorough: 600) derived structs that are all called `Local`, each in a block of its own, and reads()/writes() asked both directly and through `StaticAccessor`. "
      "distinct non-trivial = normalised type expression with >=2 resource-bearing members.",
      quick=[{"kind": "c06"}], thorough=[{"kind": "c06"}], replay_whole=True, crash_is_violation=True, level="exploration")
